@@ -25,7 +25,7 @@ import numpy as np
 import z3
 
 ARR_SHAPES = {}   # name of an Arr constant -> list of shape entries (python ints / z3 Int terms); filled by aten.ATen
-MIN_ADMISSIBLE = 24
+MIN_ADMISSIBLE = 40
 MAX_SAMPLES = 400
 EPS64 = float(np.finfo(np.float64).eps)
 
@@ -511,6 +511,8 @@ def _int_assignments(hyps, ints, model, limit=40):
         if len(out) >= limit // 2:
             break
     random.Random(7).shuffle(out)
+    # generic shapes first: degenerate dimensions (0, 1) hide most differences
+    out.sort(key=lambda a: -sum(1 for v in a.values() if v >= 2))
     return out
 
 
@@ -528,7 +530,8 @@ def _has_uf(e):
     return False
 
 
-FAMILIES = ["gauss", "gauss", "ints", "scaled_small", "scaled_big", "rank1", "duprows", "zero", "zero_row", "nonneg", "conflict", "tiny"]
+FAMILIES = ["gauss", "ints", "scaled_small", "scaled_big", "rank1", "duprows", "zero", "zero_row", "nonneg", "conflict", "tiny",
+            "subtiny", "huge", "rowscales", "tinyrow", "offset"]
 
 
 def _matrix(rng, shape, fam):
@@ -542,6 +545,16 @@ def _matrix(rng, shape, fam):
         x = x * 10.0 ** rng.integers(-9, -2)
     elif fam == "tiny":
         x = x * 1e-13
+    elif fam == "subtiny":
+        x = x * 10.0 ** rng.integers(-40, -15)
+    elif fam == "huge":
+        x = x * 10.0 ** rng.integers(10, 30)
+    elif fam == "rowscales" and len(shape) == 2:
+        x = x * (10.0 ** rng.integers(-14, 9, size=(shape[0], 1)))
+    elif fam == "tinyrow" and len(shape) == 2 and shape[0] >= 1:
+        x[rng.integers(0, shape[0])] *= 10.0 ** rng.integers(-30, -12)
+    elif fam == "offset":
+        x = x + 10.0 ** rng.integers(2, 6)
     elif fam == "scaled_big":
         x = x * 10.0 ** rng.integers(3, 9)
     elif fam == "rank1" and len(shape) == 2:
@@ -587,9 +600,14 @@ def sample_envs(consts, hyps, model, seed=0):
     if not assigns:
         assigns = [{n: (mvals.get(n) if isinstance(mvals.get(n), int) else 2) for n in ints}]
     j = 0
+    generic = assigns[: max(1, min(4, len(assigns)))]
     while True:
-        a = assigns[j % len(assigns)]
-        fam = FAMILIES[(j // max(1, len(assigns))) % len(FAMILIES)] if j >= len(assigns) else FAMILIES[j % len(FAMILIES)]
+        # every family with each of the most generic shapes first, then all shapes
+        if j < len(FAMILIES) * len(generic):
+            fam, a = FAMILIES[j % len(FAMILIES)], generic[(j // len(FAMILIES)) % len(generic)]
+        else:
+            a = assigns[j % len(assigns)]
+            fam = FAMILIES[(j // max(1, len(assigns))) % len(FAMILIES)]
         env = dict(a)
         for n in bools:
             env[n] = bool(mvals.get(n)) if isinstance(mvals.get(n), bool) else False
@@ -702,9 +720,9 @@ def _validate(obl, model, numeric, seed):
                     "symbolic_value_of_code": _jsonable_val(got), "samples_tried": tried,
                     "hypotheses_not_evaluable": len(unknown_hyps)}
         agree += 1
-        if admissible >= MIN_ADMISSIBLE and len({f.split("+")[0] for f in fams}) >= 6 and tried >= 60:
+        if admissible >= MIN_ADMISSIBLE and len({f.split("+")[0] for f in fams}) >= 10 and tried >= 120:
             break
-    if admissible >= MIN_ADMISSIBLE:
+    if admissible >= MIN_ADMISSIBLE and len({f.split("+")[0] for f in fams}) >= 8:
         return {"status": "spurious", "admissible_samples": admissible, "families": sorted(fams), "samples_tried": tried,
                 "hypotheses_not_evaluable": len(unknown_hyps)}
     return {"status": "unknown", "reason": f"only {admissible} admissible samples in {tried} draws ({dict(list(errors.items())[:3])})"}
